@@ -52,7 +52,7 @@ def run_item(item):
     rng = random.Random(N * 1009 + a * 31 + b)
     # history prelude: other objects with the same charge counts but other lengths (and unrelated ones) are analysed natively
     # first, so that module-level state shared between objects (caches keyed too coarsely, mutated tables) is in a used state
-    prelude = prelude_for(N, a, b)
+    prelude = std_prelude(N, a, b)
     run_prelude(prelude)
 
     def thunk():
@@ -94,26 +94,6 @@ def comp_samples(rng, N, a, b, k):
         rng.shuffle(q)
         out.append("".join(q))
     return out
-
-
-def prelude_for(N, a, b):
-    out = []
-    for extra in (3, 11):
-        out.append("K" * a + "E" * b + "G" * (N - a - b + extra))
-    if N - a - b >= 1 and N > 1:
-        out.append("K" * a + "E" * b + "G" * (N - a - b - 1))
-    out += ["KEKEKEGGSPQRD", "DDDDDKKKKK"]
-    return [q for q in out if q]
-
-
-def run_prelude(seqs):
-    from localcider.sequenceParameters import SequenceParameters
-    for q in seqs:
-        try:
-            sp = SequenceParameters(q)
-            sp.get_delta(); sp.get_kappa(); sp.get_deltaMax()
-        except Exception:
-            pass
 
 
 def replay(cex):
